@@ -15,7 +15,10 @@
      cs pollfn                 runner: AProd at JStart / JClear (LPollFn); a task whose upgrade of the Weak<Desync> failed:
                                ACons / AEnv at WTakeFn
      cs pstream                runner: AProd at JFull, JClosedTake, JLoop, JPendStore, JEndClose, JPush (LStream);
-                               consumer: ACSetDepth d (after api SETDEPTH), ACPoll, or the END of Drop::drop (ACons at CDrop1)
+                               consumer: ACSetDepth d (after api SETDEPTH), a poll, or the END of Drop::drop (ACons at CDrop1).
+                               A poll is ACPoll when the model's consumer owes one (idle, or the waker of its latest Pending
+                               poll has been called) and ACProbe otherwise (a spurious poll: the harness's probes with a
+                               throw-away waker, and the real poll that follows a Pending probe)
      acq pstream               consumer, after api DROPSTREAM: ACDrop (the section of Drop::drop stays open across the wake of
                                notify_stream_closed and the hand-over to the disposal queue, so its start is used)
      cs pipeobj <1st> / <2nd>  AProd at JInput (LInput) / JProc (LProcess)
@@ -31,13 +34,17 @@
    consumer received, in order (api CONSUMED v); end of stream seen (api CONSUMEDEND); poll_fn present or None; input
    stream and closure released (the program's Z returned); strong reference released (the harness waits for the object to
    be freed after the stream was dropped, status ok).
+   With the harness markers api PROBE / api CONSUME (first poll of a read) every OTHER poll of the consumer is a re-poll inside
+   block_on, which happens only after the consumer's own waker was called: the model must then be at CPend with `cwoken`
+   (the waker of the latest Pending poll was called) - this is what checks the fact f_poll_next_replaces_waker.
    Additional checks: the log itself must be well-formed for the pipe's mutexes (every `cs` closes the `acq` of the same
    task, no acquisition while another task is inside); after a poll_next that is Ready in the model the harness marker
    (CONSUMED v with the model's value / CONSUMEDEND) must come before the consumer's next section, and no such marker may
    come otherwise; a task that took a PipeWaker must call it (cs pwaker j) before its next own action.
-   Known blind spot (tamper.py): a poll_next of the consumer that returns Pending leaves no trace but its section; the
-   model lets an idle consumer poll at any time, so deleting such a whole section (acq+cs) or adding a spurious one is a
-   legal behaviour of the model and is accepted (6 of 670 whole-section tamperings; every other tampering is rejected).
+   Known blind spot (tamper.py): a poll_next of the consumer that returns Pending leaves no trace but its section, and the
+   model lets the consumer poll at any time, so deleting the whole section (acq+cs) of a first poll that returned Pending
+   is absorbed (the re-poll after the wake then plays the announced first poll): 7 of 552 whole-section tamperings (276 deletions, 276 duplications); every
+   other tampering (single lines, markers, duplicated sections) is rejected.
    Not replayed: events after `api END` (the harness's teardown); D/S/T operations on the object (invisible in the pipe's
    lock classes).  Unsupported (SKIP): several pipes, pipe_in, items produced after the close, two producer threads with
    wakes in flight at the same time (the model has one environment thread).
@@ -82,7 +89,8 @@ let parse_prog (text : string) : pinfo =
 let show_pc = function
   | JStart -> "JStart" | JFull -> "JFull" | JClosedTake -> "JClosedTake" | JLoop -> "JLoop" | JInput -> "JInput"
   | JPendStore -> "JPendStore" | JEndClose -> "JEndClose" | JProc x -> Printf.sprintf "JProc %d" (i x)
-  | JPush v -> Printf.sprintf "JPush %d" (i v) | JWake (b, k) -> Printf.sprintf "JWake %b %s" b (match k with KLoop -> "KLoop" | KRet -> "KRet")
+  | JPush v -> Printf.sprintf "JPush %d" (i v)
+  | JWake (w, k) -> Printf.sprintf "JWake %s %s" (match w with Some w -> string_of_int (i w) | None -> "none") (match k with KLoop -> "KLoop" | KRet -> "KRet")
   | JClear -> "JClear"
 let show_wk = function WIdle -> "WIdle" | WCall k -> Printf.sprintf "WCall %d" (i k) | WCtx -> "WCtx" | WTakeFn -> "WTakeFn"
 let show_cst = function CIdle -> "CIdle" | CRun b -> Printf.sprintf "CRun %b" b | CPend -> "CPend" | CDone -> "CDone"
@@ -91,13 +99,13 @@ let show_label = function LPollFn -> "pollfn" | LStream -> "pstream" | LInput ->
                           | LPipeWaker -> "pwaker" | LNone -> "silent"
 let show_opt = function Some k -> string_of_int (i k) | None -> "none"
 let show_actor = function
-  | AProd -> "AProd" | ACPoll -> "ACPoll" | ACons -> "ACons" | ACDrop -> "ACDrop" | ACSetDepth d -> Printf.sprintf "ACSetDepth %d" (i d)
+  | AProd -> "AProd" | ACPoll -> "ACPoll" | ACProbe -> "ACProbe" | ACons -> "ACons" | ACDrop -> "ACDrop" | ACSetDepth d -> Printf.sprintf "ACSetDepth %d" (i d)
   | AItem -> "AItem" | AEnd -> "AEnd" | AEnv -> "AEnv" | ADispose -> "ADispose" | AExtDrop -> "AExtDrop"
 let show_state (s : state) =
-  Printf.sprintf "job %s, queue [%s]; consumer %s woken=%b cwk=%s; core pending=%d depth=%d closed=%b notify=%b nsc=%s bp=%s; input rest=%d avail=%d ended=%b waker=%s ewk=%s; poll_fn=%b strong=%b chute=%b"
+  Printf.sprintf "job %s, queue [%s]; consumer %s latest=%d woken=%b cwk=%s; core pending=%d depth=%d closed=%b notify=%s nsc=%s bp=%s; input rest=%d avail=%d ended=%b waker=%s ewk=%s; poll_fn=%b strong=%b chute=%b"
     (match s.running with None -> "none" | Some (j, pc) -> Printf.sprintf "%d at %s" (i j) (show_pc pc))
     (String.concat ";" (List.map (fun j -> string_of_int (i j)) s.jobq))
-    (show_cst s.cst) s.cwoken (show_wk s.cwk) (List.length s.pending) (i s.depth) s.closed s.notify (show_opt s.nsc) (show_opt s.bp)
+    (show_cst s.cst) (i s.clatest) s.cwoken (show_wk s.cwk) (List.length s.pending) (i s.depth) s.closed (show_opt s.notify) (show_opt s.nsc) (show_opt s.bp)
     (List.length s.inp_rest) (i s.inp_avail) s.inp_ended (show_opt s.inp_waker) (show_wk s.ewk) s.poll_fn s.strong_held s.chute
 
 (* ---------- statistics ---------- *)
@@ -141,10 +149,16 @@ let replay (p : pinfo) (evs : ev array) : stats =
   let impl_delivered = ref [] and impl_end = ref false and impl_pollfn = ref true and job_pollfn = ref 0 in
   let held : (string * int, int) Hashtbl.t = Hashtbl.create 8 in  (* well-formedness of the log: pipe mutex -> task inside its section *)
   let exp_result : [ `Item of int | `End ] option ref = ref None in (* the consumer's last poll was Ready: the harness marker must follow *)
+  (* the harness announces the first poll of a read (api PROBE: with a throw-away waker; api CONSUME: block_on starts);
+     every other poll of the consumer is a re-poll inside block_on, which happens only after ITS waker was called *)
+  let has_read_markers = Array.exists (fun e -> e.kind = "api" && e.cls = "CONSUME") evs in
+  let free_poll = ref false in
   let is_runner t = t = !runner && !s.running <> None in
   let settle_jwake () =
     while (match !s.running with Some (_, JWake (_, _)) -> true | _ -> false) do
-      (match !s.running with Some (_, JWake (true, _)) -> hit "consumer_waker_called" | _ -> ());
+      (match !s.running with
+       | Some (_, JWake (Some w, _)) -> hit (if w = !s.clatest then "consumer_latest_waker_called" else "consumer_stale_waker_called")
+       | _ -> ());
       silent AProd "notify.map(wake) of the poll job" done in
   let settle_cons_return () = match !s.cst, !s.cwk with CRun _, WIdle -> silent ACons "return from poll_next" | _ -> () in
   let no_obligation t what =
@@ -228,6 +242,9 @@ let replay (p : pinfo) (evs : ev array) : stats =
     | "new", "pollfn" -> if !created then raise (Unsupported "a second PipeContext"); created := true
     | "api", "PRODUCE" when e.id = p.stream -> input_event t AItem "PRODUCE"
     | "api", "CLOSE" when e.id = p.stream -> input_event t AEnd "CLOSE"
+    | "api", ("PROBE" | "CONSUME" | "CONSUMED" | "CONSUMEDEND" | "DROPSTREAM") when !free_poll ->
+      div "the harness announced a poll of the output stream (PROBE / CONSUME) but no PipeStreamCore section of the consumer followed before %s" e.cls
+    | "api", ("PROBE" | "CONSUME") -> no_obligation t e.cls; free_poll := true
     | "api", "SETDEPTH" -> no_obligation t "SETDEPTH"; setdepth := Some e.id
     | "api", "DROPSTREAM" ->
       no_obligation t "DROPSTREAM";
@@ -287,7 +304,17 @@ let replay (p : pinfo) (evs : ev array) : stats =
              | [], true -> hit "poll_ready_end"; exp_result := Some `End
              | [], false -> hit "poll_pending");
             (match !s.bp with Some j -> hit (if is_live !s j then "poll_takes_live_bp_waker" else "poll_takes_dead_bp_waker") | None -> ());
-            do_step ACPoll LStream "PipeStream::poll_next";
+            (* a poll the consumer owes (idle, or its latest waker was called), or a spurious one while it is waiting *)
+            if has_read_markers && not !free_poll then begin
+              (* a re-poll inside block_on: the implementation's consumer was woken through the waker of its latest poll *)
+              (match !s.cst with
+               | CPend when !s.cwoken -> hit "repoll_after_wake"
+               | _ -> div "the consumer polls again inside the same read, i.e. its waker was called; in the model the waker of its latest Pending poll has not been called (model: %s)" (show_state !s)) end;
+            free_poll := false;
+            if pollable !s then do_step ACPoll LStream "PipeStream::poll_next"
+            else begin
+              hit (match !s.pending, !s.closed with [], false -> "spurious_poll_pending" | _ -> "spurious_poll_ready");
+              do_step ACProbe LStream "PipeStream::poll_next (spurious: the consumer's latest waker has not been called)" end;
             after_take_waker t SCons; settle_cons_return ()
         end end
       else div "task %d performs a PipeStreamCore section but is neither the consumer (task %d) nor running a poll job (task %d; model: %s)" t !consumer !runner (show_state !s)
@@ -369,6 +396,7 @@ let () =
   let files = List.filter (fun a -> match a with
       | "--unrepaired" -> facts := facts_unrepaired; false
       | "--repaired" -> facts := facts_repaired; false
+      | "--stale-waker" -> facts := facts_stale_waker; false
       | "--trace" -> trace := true; false
       | _ -> true) args in
   let ok = ref 0 and bad = ref 0 and skipped = ref 0 and steps = ref 0 and labelled = ref 0 and events = ref 0 in
@@ -400,5 +428,5 @@ let () =
          | Unsupported why -> incr skipped; Printf.printf "SKIP\t%s\t%s\n" file why)) files;
   let names = List.sort compare (Hashtbl.fold (fun k _ acc -> k :: acc) cov []) in
   Printf.printf "COVER\t%s\n" (String.concat "\t" (List.map (fun k -> Printf.sprintf "%s=%d" k (Hashtbl.find cov k)) names));
-  Printf.printf "FACTS\tpending_recheck=%b\tdefault_depth=%d\n" !facts.f_pending_recheck (i !facts.f_default_depth);
+  Printf.printf "FACTS\tpending_recheck=%b\tdefault_depth=%d\tpoll_next_replaces_waker=%b\n" !facts.f_pending_recheck (i !facts.f_default_depth) !facts.f_poll_next_replaces_waker;
   Printf.printf "SUMMARY\tok=%d\tdiverged=%d\tskipped=%d\tmodel_steps=%d\tlabelled_steps=%d\tevents=%d\n" !ok !bad !skipped !steps !labelled !events
